@@ -16,7 +16,7 @@ for k in sorted(r):
     missed = [p for p, x in det.items() if x['exit'] != 1]
     if missed and any(x['exit'] == 1 for x in det.values()): verdict += ' (not by ' + ', '.join(missed) + ')'
     sig = next((x['signatures'][0] for x in det.values() if x.get('signatures')), '')
-    XX
+    print(f"| `{k}` {('- ' + v['note']) if v.get('note') else ''} | {suite} | {checks} | {verdict} | `{esc(sig[:90])}` |")
 print()
 print("| seeded change (sub-agent, `seeded/<id>/`) | what it needs to manifest | detected by | first signature |")
 print("|---|---|---|---|")
